@@ -491,7 +491,16 @@ def harness(c, fdesc, calls):
                 return
     has_int, terms, groups = ref_chain(ref_items, True)
     want_common = ([INT] if has_int else []) + terms
-    resp, common, rgroups = real_terms(model)
+    try:
+        resp, common, rgroups = real_terms(model)
+    except symx.PathEnd:
+        raise
+    except Exception as e:  # noqa -- e.g. a foreign object in the term lists
+        names = realise_names(b)
+        c.stats.obligations += 1
+        c.stats.violated += 1
+        c.violations.append({"label": "expansion differs: the returned model cannot be read (after it was printed)", "info": {"formula": render(text, names), "template": text, "printed": True, "error": f"{type(e).__name__}: {e}"[:120]}, "model": {}})
+        return
     ok = True
     why = None
     for t in common:
@@ -557,6 +566,17 @@ def replay(info):
     from formulae import model_description
 
     f = info["formula"]
+    if info.get("printed"):
+        from formulae import model_description as _md
+
+        m = _md(f)
+        str(m)
+        repr(m)
+        try:
+            concrete_model(m)
+        except Exception as e:  # noqa
+            return True, f"{f!r}: after str()/repr() the model cannot be read: {type(e).__name__}"
+        return False, "model readable after printing"
     if "term" in info:
         from formulae import model_description as _md
         from formulae.terms.terms import Term as _T
